@@ -2,9 +2,6 @@ package main
 
 import (
 	"strings"
-	"time"
-
-	"example.com/scion-time/base/timemath"
 
 	"verifharness/lib"
 )
@@ -41,27 +38,21 @@ func ints(s string) []int64 {
 func replay(kind, args string) {
 	g := parseGroups(args)
 	switch kind {
-	case "ftm.dur", "median.dur":
+	case "ftm.dur", "median.dur", "ftm.dur.big", "median.dur.big":
 		durCase(kind, ints(g[0]), ints(g[1]))
 	case "ftm.perm":
-		vs, p := ints(g[0]), ints(g[1])
-		f1 := timemath.FaultTolerantMidpoint(durs(vs))
-		m1 := timemath.Median(durs(vs))
-		f2 := timemath.FaultTolerantMidpoint(durs(p))
-		m2 := timemath.Median(durs(p))
-		w.Case("ftm.perm", "", lib.V(lib.IL(vs), lib.IL(p)), lib.V(lib.I(int64(f1)), lib.I(int64(m1)), lib.I(int64(f2)), lib.I(int64(m2))))
-	case "ftm.meas", "median.meas":
+		permCase(ints(g[0]), ints(g[1]))
+	case "ftm.meas", "median.meas", "ftm.meas.big", "median.meas.big", "ftm.meas.far", "median.meas.far":
 		var in []mrec
 		for _, m := range parseGroups(g[0]) {
 			f := ints(m)
-			in = append(in, mrec{f[0], f[1], f[2] != 0})
+			in = append(in, mrec{f[0], f[1], f[2], f[3] != 0})
 		}
 		measCase(kind, in, ints(g[1]))
-	case "ftm.midpoint":
+	case "ftm.midpoint", "ftm.midpoint.beyond":
 		f := ints(args)
-		w.Case("ftm.midpoint", "", args, lib.I(int64(timemath.Midpoint(time.Duration(f[0]), time.Duration(f[1])))))
+		midCase(f[0], f[1])
 	case "ftm.sgninv":
-		f := ints(args)
-		w.Case("ftm.sgninv", "", args, lib.V(lib.I(int64(timemath.Sgn(time.Duration(f[0])))), lib.I(int64(timemath.Inv(time.Duration(f[0]))))))
+		sgnInvCase(ints(args)[0])
 	}
 }
